@@ -56,6 +56,9 @@ fn formats() -> Vec<(&'static str, u32, Frame)> {
         // refreshing frames whose effect depends on what the row already holds (see `prelude`)
         ("DF20-RA", 20, frames::df20(A, frames::ac13_for_alt(7000), frames::mb_bds30(1 << 13, 0, 0, 1, 0, 0))),
         ("DF17-surface-stopped-repeat", 17, frames::df17(5, A, frames::me_surfpos(7, 1, 0, 0, 0, 0, SURF.0, SURF.1))),
+        // velocity reports a plausibility filter could dislike: supersonic (subtype 2, 4 kt steps), airspeed (subtype 3)
+        ("DF17-vel-supersonic", 17, frames::df17(5, A, frames::me_velocity(&Vel { st: 2, vew: 301, vns: 201, vr: 31, ..Default::default() }))),
+        ("DF17-airspeed", 17, frames::df17(5, A, frames::me_velocity(&Vel { st: 3, dew: 1, vew: 700, dns: 1, vns: 480, vr: 1, ..Default::default() }))),
     ]
 }
 
@@ -64,7 +67,39 @@ const SURF: (u32, u32) = (93006, 51380);
 
 /// frames that are in the table before the exploration starts (the row of A exists, last heard at age 0): for the
 /// RA report a capability of 5, for the repeated surface report a capability of 4 and the decoded position
-fn prelude(fi: usize) -> Vec<Frame> {
+fn prelude(fi: usize, rich: usize) -> Vec<Frame> {
+    let mut v = rich_row(rich);
+    v.extend(format_prelude(fi));
+    v
+}
+
+/// Rows that hold "interesting" values in the fields a sweep or an update might consult although the property
+/// gives them no say: 1 = a glider (category set B code 1) in distress (squawk 7700, permanent alert, TC28
+/// emergency, ADS-B version 2), 2 = an ultralight (set B code 4) with squawk 7500, a temporary alert and SPI,
+/// known on the ground. Every refreshing format is explored on each of them.
+fn rich_row(rich: usize) -> Vec<Frame> {
+    match rich {
+        1 => vec![
+            frames::df11(5, A, 0),
+            frames::df17(5, A, frames::me_ident(3, 1, frames::callsign_codes("GLIDER"))),
+            frames::df5(A, frames::id13_for_squawk(7700)),
+            frames::df17(5, A, frames::me_tc31(2)),
+            frames::df17(5, A, frames::me_tc28()),
+            frames::df17(5, A, { let (la, lo) = crate::refmodel::cpr::encode(super::rowmodel::P1.0, super::rowmodel::P1.1, false); frames::me_airpos(11, 1, 0, frames::ac12_for_alt(3000), 0, 0, la, lo) }),
+            frames::df21(A, frames::id13_for_squawk(7700), 0),
+        ],
+        2 => vec![
+            frames::df11(4, A, 0),
+            frames::df17(4, A, frames::me_ident(3, 4, frames::callsign_codes("ULTRA"))),
+            frames::df5(A, frames::id13_for_squawk(7500)),
+            frames::df17(4, A, { let (la, lo) = crate::refmodel::cpr::encode(super::rowmodel::P1.0, super::rowmodel::P1.1, true); frames::me_airpos(12, 2, 0, frames::ac12_for_alt(500), 0, 1, la, lo) }),
+            frames::df17(4, A, { let (la, lo) = crate::refmodel::cpr::encode(super::rowmodel::P1.0, super::rowmodel::P1.1, false); frames::me_airpos(12, 3, 0, frames::ac12_for_alt(500), 0, 0, la, lo) }),
+        ],
+        _ => vec![],
+    }
+}
+
+fn format_prelude(fi: usize) -> Vec<Frame> {
     match formats()[fi].0 {
         "DF20-RA" => vec![frames::df11(5, A, 0)],
         "DF17-surface-stopped-repeat" => vec![
@@ -78,7 +113,7 @@ fn prelude(fi: usize) -> Vec<Frame> {
 }
 
 fn initial(p: &Params, cfg: &Cfg) -> (Vec<Snap>, Ages) {
-    let pre = prelude(p.fi);
+    let pre = prelude(p.fi, p.rich);
     if pre.is_empty() {
         return (vec![], Ages::new());
     }
@@ -101,11 +136,13 @@ struct Params {
     filter: bool,
     /// the table is drawn after every frame (-i '' --update=-1) instead of quiet
     draw: bool,
+    /// which prepared row of `rich_row` the aircraft starts from (0 = none)
+    rich: usize,
 }
 
 impl Params {
     fn label(&self) -> String {
-        format!("d={} {} F={}{}{}", self.d, if self.upd { "-U" } else { "default" }, formats()[self.fi].0, if self.filter { " -f" } else { "" }, if self.draw { " draw" } else { "" })
+        format!("d={} {} F={}{}{}{}", self.d, if self.upd { "-U" } else { "default" }, formats()[self.fi].0, if self.filter { " -f" } else { "" }, if self.draw { " draw" } else { "" }, if self.rich > 0 { format!(" row{}", self.rich) } else { String::new() })
     }
     fn opts(&self) -> Vec<String> {
         let mut o = vec!["-d".to_string(), self.d.to_string()];
@@ -280,10 +317,25 @@ fn param_sets() -> Vec<Params> {
         for upd in [false, true] {
             for fi in 0..formats().len() {
                 for filter in [false, true] {
-                    v.push(Params { d, upd, fi, filter, draw: false });
+                    v.push(Params { d, upd, fi, filter, draw: false, rich: 0 });
                 }
                 if (d == 1 || d == 60) && matches!(fi, 0 | 4 | 8) {
-                    v.push(Params { d, upd, fi, filter: false, draw: true });
+                    v.push(Params { d, upd, fi, filter: false, draw: true, rich: 0 });
+                }
+            }
+        }
+    }
+    v
+}
+
+/// every refreshing format on each prepared row (explored one level less deep)
+fn rich_param_sets() -> Vec<Params> {
+    let mut v = vec![];
+    for rich in [1usize, 2] {
+        for d in [1i64, 60] {
+            for upd in [false, true] {
+                for fi in 0..formats().len() {
+                    v.push(Params { d, upd, fi, filter: false, draw: false, rich });
                 }
             }
         }
@@ -310,7 +362,7 @@ fn run_one(ctx: &mut Ctx, p: &Params, depth: usize) {
                 &format!("C12/{suffix}/{}", p.label()),
                 &names.join(" > "),
                 || format!("[{}] after [{}]: {msg}", p.label(), names.join(" > ")),
-                || json!({"d": p.d, "upd": p.upd, "fi": p.fi, "filter": p.filter, "draw": p.draw, "path": path, "depth": depth}),
+                || json!({"d": p.d, "upd": p.upd, "fi": p.fi, "filter": p.filter, "draw": p.draw, "rich": p.rich, "path": path, "depth": depth}),
             );
         }
     });
@@ -323,6 +375,12 @@ fn run(ctx: &mut Ctx) {
     for (i, p) in param_sets().iter().enumerate() {
         if ctx.mine(i as u64) {
             run_one(ctx, p, depth);
+        }
+    }
+    for (i, p) in rich_param_sets().iter().enumerate() {
+        if ctx.mine(5_000 + i as u64) {
+            ctx.count("prepared-row parameter set");
+            run_one(ctx, p, depth - 1);
         }
     }
     // crowded tables: n live aircraft and one that has been silent for delete_after seconds; after 12
@@ -435,6 +493,7 @@ fn replay(ctx: &mut Ctx, case: &Value) {
         fi: case.get("fi").and_then(|x| x.as_u64()).unwrap_or(0) as usize,
         filter: case.get("filter").and_then(|x| x.as_bool()).unwrap_or(false),
         draw: case.get("draw").and_then(|x| x.as_bool()).unwrap_or(false),
+        rich: case.get("rich").and_then(|x| x.as_u64()).unwrap_or(0) as usize,
     };
     let depth = case.get("depth").and_then(|x| x.as_u64()).unwrap_or(5) as usize;
     let path: Vec<usize> = case.get("path").and_then(|p| p.as_array()).map(|a| a.iter().filter_map(|x| x.as_u64().map(|v| v as usize)).collect()).unwrap_or_default();
